@@ -302,6 +302,17 @@ class Cloner:
             opset_imports=graph.opset_imports.copy(),
             name=graph.name,
         )
+        # A graph names the unnamed nodes and values that join it. Where the original
+        # is unnamed (a name was taken away again), so is the copy
+        for value, new_value in zip(graph.inputs, input_values):
+            if value.name is None:
+                new_value.name = None
+        for node, new_node in zip(graph, nodes):
+            if node.name is None:
+                new_node.name = None
+            for output, new_output in zip(node.outputs, new_node.outputs):
+                if output.name is None:
+                    new_output.name = None
         if graph.metadata_props:
             new_graph.metadata_props.update(graph.metadata_props)
         if graph.meta:
